@@ -23,7 +23,8 @@ REQUIRED_COUNTERS = ['serial_transposes', 'parallel_transposes',
                      'slice_transposes', 'no_data_transposes',
                      'file_ops_checked', 'multi_pass_transposes',
                      'matrices_with_an_axis_beyond_uint8_and_few_entries',
-                     'matrices_with_an_axis_beyond_uint16']
+                     'matrices_with_an_axis_beyond_uint16',
+                     'chunked_dense_layer_copies']
 EXHAUSTIVE = {'quick': False, 'thorough': True}
 RULE = ('core routines (transpose_sparse_matrix_on_disk with / without '
         'value array and every indices_slice sub-range, csc_to_csr_on_disk, '
@@ -562,6 +563,40 @@ def run_fileops(spec, work, ctx):
             ctx.bump('file_ops_checked')
             if not np.array_equal(X, M) or o != obs or v != var:
                 ctx.V('C13:copy_layer_to_x:wrong-matrix', what)
+        # copy a chunked dense layer to X: every storage layout in turn,
+        # every entry stored and distinct, so a tile the copy loop never
+        # visits (or visits with the wrong offset) shows as a wrong value
+        layout = ['tall', 'cols', 'gzip', 'small', 'wide',
+                  'rows'][(spec['seed'] + it) % 6]
+        Md = (np.arange(M.size, dtype=np.int64).reshape(M.shape)
+              + 1).astype(np.float32)
+        if it == 2:
+            # tall auto-chunked layer (HDF5 picks row chunk > column chunk)
+            Md = (np.arange(1500 * 260, dtype=np.int64).reshape(1500, 260)
+                  + 1).astype(np.float32)
+            layout = 'gzip'
+        obs_d = [f'c{i}' for i in range(Md.shape[0])]
+        var_d = [f'g{j}' for j in range(Md.shape[1])]
+        src = work / f'laychunk{it}.h5ad'
+        dst = work / f'cplchunk{it}.h5ad'
+        mapworld.write_h5ad(src, Md, obs_d, var_d, encoding='dense',
+                            layer='raw_counts', h5_layout=layout)
+        what = (f'copy_layer_to_x from dense layer {Md.shape} stored with '
+                f'layout {layout}')
+
+        def cplc():
+            au.copy_layer_to_x(original_h5ad_path=src,
+                               new_h5ad_path=dst, layer='raw_counts')
+        if file_guard(ctx, 'copy_layer_to_x', Md, cplc, what):
+            X, o, v = read_x(dst)
+            ctx.bump('file_ops_checked')
+            ctx.bump('chunked_dense_layer_copies')
+            if not np.array_equal(X, Md) or o != obs_d or v != var_d:
+                ctx.V('C13:copy_layer_to_x:wrong-matrix[chunked-dense-layer]',
+                      what)
+        src.unlink()
+        if dst.exists():
+            dst.unlink()
         # amalgamate rows from several files / layers
         M2 = random_sparse(rng, max_dim=40)
         M2 = np.resize(M2, (M2.shape[0], m)).astype(M.dtype)
